@@ -157,6 +157,16 @@ func Harness_C06_transfers() {
 			} else {
 				cache.Delete(akey)
 			}
+			if to != sender {
+				// the recipient may hold an allowance of its own from the same owner; it must play no role
+				okey := genTransferFromKey(contract, ctx.accounts[from], ctx.accounts[to])
+				other := c06Amount("allowance.of.recipient")
+				if !other.IsZero() {
+					cache.Put(okey, other.MustToStorageItemBytes())
+				} else {
+					cache.Delete(okey)
+				}
+			}
 			_, _, err := TransferedFrom(ns, contract, &TransferFromStateV2{Sender: ctx.accounts[sender],
 				TransferStateV2: TransferStateV2{From: ctx.accounts[from], To: ctx.accounts[to], Value: val}})
 			if err == nil {
